@@ -57,24 +57,20 @@ func readGitConfig(configs ...*git.ConfigurationSource) (gf *GitFetcher, extensi
 				ext := extensions[name]
 				ext.Name = name
 
+				// No property of a pointer extension may come from
+				// .lfsconfig: even an unknown one would register the
+				// extension, with empty commands.
+				if gc.OnlySafeKeys {
+					ignored = append(ignored, key)
+					continue
+				}
+
 				switch prop {
 				case "clean":
-					if gc.OnlySafeKeys {
-						ignored = append(ignored, key)
-						continue
-					}
 					ext.Clean = val
 				case "smudge":
-					if gc.OnlySafeKeys {
-						ignored = append(ignored, key)
-						continue
-					}
 					ext.Smudge = val
 				case "priority":
-					if gc.OnlySafeKeys {
-						ignored = append(ignored, key)
-						continue
-					}
 					allowed = true
 					p, err := strconv.Atoi(val)
 					if err == nil && p >= 0 {
